@@ -54,6 +54,7 @@ def prime():
     global _send
     catalog.load()
     # multi-definition PGNs without a catch-all definition: a frame whose match fields fit no definition is ignored
+    del _nomatch[:]
     for pgn, defs in sorted(catalog.BY_PGN.items()):
         if len(defs) > 1 and all(d["match"] for d in defs) and not any(d["fallback"] for d in defs) and "fast" in defs[0]:
             _nomatch.append(pgn)
